@@ -236,6 +236,24 @@ func (en *Engine) VerifyFunction(fn *ssa.Function, fc *FuncContract, pc *PkgCont
 		paramRegions[r] = true
 	}
 
+	if fc.HasMod {
+		wf := &writeFrame{entry: paramRegions}
+		for _, m := range fc.Modifies {
+			loc := sc.lvalue(m.Expr)
+			switch l := loc.(type) {
+			case PtrV:
+				if l.R != nil {
+					wf.allowed = append(wf.allowed, l)
+				}
+			case SliceV:
+				if l.R != nil {
+					wf.allowed = append(wf.allowed, l)
+				}
+			}
+		}
+		st.wframe = wf
+	}
+
 	// explore
 	work := []*State{st}
 	var finals []*State
